@@ -7,6 +7,16 @@ specification has no action for it, so the trace is rejected.
 from __future__ import annotations
 
 
+def _runs(b: bytes) -> list:
+    out = []
+    for c in b:
+        if out and out[-1][0] == c:
+            out[-1][1] += 1
+        else:
+            out.append([c, 1])
+    return out
+
+
 class InjectedIOError(OSError):
     """Raised by an instrumented stream at a chosen operation."""
 
@@ -30,7 +40,7 @@ class RecSink:
             self._ev.append({"op": "wfail", "n": 0, "d": []})
             raise InjectedIOError("injected write failure")
         b = bytes(b)
-        self._ev.append({"op": "w", "n": len(b), "d": list(b)})
+        self._ev.append({"op": "w", "n": len(b), "d": _runs(b)})
         self._data += b
         return len(b)
 
